@@ -66,24 +66,23 @@ def classify(tmpl, asm, res):
         undecided.append("verus error: " + (d.message or "")[:200])
     if res.timeout:
         undecided.append("verus timeout")
+    base = os.path.basename(asm.path)
+
+    def ours(span):
+        return span is not None and os.path.basename(span.get("file_name", "")) == base
     for d in res.diags:
         sp = d.primary()
-        clause_sp = sp
-        if d.kind == "precondition":
-            c = d.labelled("failed precondition")
-            if c is not None and os.path.basename(c.get("file_name", "")) == os.path.basename(asm.path):
-                clause_sp = c
-        else:
-            c = d.labelled("failed this")
-            if c is not None:
-                clause_sp = c
         if sp is None:
             undecided.append("diagnostic without span: " + d.message)
             continue
-        site_line = sp["line_start"]
+        clause_sp = d.labelled("failed this") or d.labelled("failed precondition") or sp
+        site_sp = sp if ours(sp) else next((x for x in d.spans if ours(x)), None)
+        if site_sp is None:
+            undecided.append("diagnostic outside the unit file: " + d.message)
+            continue
+        site_line = site_sp["line_start"]
         fn = V.enclosing_fn(lines, site_line)
-        # for post-conditions the function is the one that contains the clause
-        if d.kind == "postcondition":
+        if d.kind == "postcondition" and ours(clause_sp):
             fn = V.enclosing_fn(lines, clause_sp["line_start"])
         if fn and fn.endswith("__canary"):
             canary.add(fn)
@@ -94,7 +93,7 @@ def classify(tmpl, asm, res):
         if d.kind == "rlimit":
             undecided.append("rlimit exceeded in %s" % fn)
             continue
-        same_file = os.path.basename(clause_sp.get("file_name", "")) == os.path.basename(asm.path)
+        same_file = ours(clause_sp)
         info = asm.line_info(clause_sp["line_start"]) if same_file else None
         site = asm.line_info(site_line)
         props = label = None
@@ -118,8 +117,10 @@ def classify(tmpl, asm, res):
             undecided.append("prelude function %s does not verify (%s)" % (fn, d.kind))
             continue
         clause = "\n".join(t["text"] for t in clause_sp.get("text", []))
-        if d.kind == "precondition" and not same_file:
-            clause = "\n".join(t["text"] for t in sp.get("text", [])) + "  [callee precondition in vstd]"
+        if not same_file:
+            clause = "\n".join(t["text"] for t in site_sp.get("text", [])) + "  [clause in vstd: %s:%s %s]" % (
+                clause_sp.get("file_name"), clause_sp.get("line_start"), " ".join(t["text"].strip() for t in clause_sp.get("text", [])))
+            label = label or "vstd-%s-%s" % (os.path.basename(clause_sp.get("file_name", "")).replace(".rs", ""), clause_sp.get("line_start"))
         f = Failure(tmpl.unit, fn or "?", d.kind, label, clause, set(props), d.rendered, site_line)
         if f.oid not in {x.oid for x in fails}:
             fails.append(f)
